@@ -93,6 +93,8 @@ def model_apply(forest, id_repl, struct, fresh):
         for key, r in struct:
             if t == key:
                 touched[0] = True
+                if r is None:
+                    return DELETE, None
                 return r, 'new'
         if isinstance(t, str):
             return t, path
@@ -226,7 +228,8 @@ def run_case(part, forest, id_part, struct_part, fresh, label, second=None):
         id_model[path] = mtree
     struct_model = []
     for key, rep in struct_part:
-        substs[sexp.list_to_node(key, Node)] = sexp.list_to_node(rep, Node)
+        substs[sexp.list_to_node(key, Node)] = None if rep is None else \
+            sexp.list_to_node(rep, Node)
         struct_model.append((key, rep))
     fresh_nodes = [sexp.list_to_node(f, Node) for f in fresh]
     exp, origin, touched = model_apply(forest, id_model, struct_model, fresh)
@@ -304,7 +307,8 @@ STRUCT_KEYS = ['a', ['a'], ['a', 'b']]
 
 
 def struct_repls(key):
-    return ['c', ['g', key], ['g', key, key]]
+    # None = delete every occurrence
+    return ['c', ['g', key], ['g', key, key], None]
 
 
 def run_unit(unit):
@@ -367,6 +371,22 @@ def run_unit(unit):
                 for s1 in (('none', ), ('tree', 'c'), ('tree', ['c', 'a'])):
                     for s2 in (('none', ), ('tree', 'd')):
                         run_pair(part, forest, p, s1, q, s2)
+    elif kind == 'nested-pairs':
+        _, total, idx, nshards = unit
+        for n, forest in enumerate(forests_exact(total)):
+            if n % nshards != idx:
+                continue
+            paths = list(sexp.forest_positions(forest))
+            for p in paths:
+                t = sexp.at(forest, p)
+                if isinstance(t, str) or not t:
+                    continue
+                for q in paths:
+                    if len(q) > len(p) and q[:len(p) + 1] == p + (0, ):
+                        for s2 in (('none', ), ('tree', 'd')):
+                            if q == p + (0, ) and s2[0] == 'none':
+                                pass
+                            run_nested_pair(part, forest, p, q, s2)
     elif kind == 'decls':
         cmds = [['set-logic', 'L'], ['set-info', ':a', 'b'],
                 ['declare-const', 'x', 'Bool'], ['assert', 'a'], 'x', [],
@@ -421,6 +441,46 @@ def run_pair(part, forest, p, s1, q, s2):
             })
 
 
+def run_nested_pair(part, forest, p, q, s2):
+    """First replace the node at p by its own first child (ReplaceByChild),
+    then apply a pending id-keyed simplification for node q inside that child:
+    the child keeps its identity, so the second one still applies."""
+    from ddsmt.mutator_utils import Simplification, apply_simp
+    base = build(forest)
+    node_p = node_at(base, p)
+    node_q = node_at(base, q)
+    r2, m2 = mk_repl(s2, base, q)
+    simp1 = Simplification({node_p.id: node_p.data[0]}, [])
+    simp2 = Simplification({node_q.id: r2}, [])
+    # model: apply the inner replacement first, then pull the child up
+    inner, _, _ = model_apply(forest, {q: m2}, [], [])
+    sub = sexp.at(inner, p) if True else None
+    if q == p + (0, ) and m2 is None:
+        exp, _, _ = model_apply(forest, {p: None}, [], [])
+    else:
+        child = sub[0]
+        exp, _, _ = model_apply(forest, {p: child}, [], [])
+    common.pcount(part, 'evaluations')
+    common.pcount(part, 'distinct_nontrivial')
+    common.pcount(part, 'nested_pending_pairs')
+    try:
+        mid = metered(lambda: apply_simp(base, simp1), 100000)
+        res = metered(lambda: apply_simp(mid, simp2), 100000)
+        got = sexp.node_to_list(res)
+    except (Budget, Exception) as e:  # noqa
+        got = f'exception {type(e).__name__}: {e}'
+    if got != exp:
+        common.pviolation(
+            part, 'pairs|pending-simplification-inside-moved-child-lost|' +
+            sexp.serialize_all(forest)[:80] + repr((p, q, s2[0])), {
+                'brief': f'nested pending pair: base '
+                         f'{sexp.serialize_all(forest)!r}: replace {p} by '
+                         f'its first child, then {q}->{s2}: got {got!r} '
+                         f'expected {exp!r}',
+                'forest': forest, 'label': 'nested-pairs',
+                'pair': [list(p), list(q), list(s2)]})
+
+
 def forests_exact(total):
     for fs in sexp.forests_shapes(total):
         if len(fs) > 2:
@@ -445,6 +505,10 @@ def plan(tier):
         sh = 16 if total >= 5 else 1
         for i in range(sh):
             units.append(('pairs', total, i, sh))
+    for total in range(2, 6):
+        sh = 16 if total >= 5 else 1
+        for i in range(sh):
+            units.append(('nested-pairs', total, i, sh))
     for L in (1, 2, 3):
         units.append(('decls', L))
     return units, nid, maxk
@@ -481,7 +545,10 @@ def replay(rec):
     _init()
     r = rec['record']
     part = common.part_result()
-    if r['label'] == 'pairs':
+    if r['label'] == 'nested-pairs':
+        p, q, s2 = r['pair']
+        run_nested_pair(part, r['forest'], tuple(p), tuple(q), tuple(s2))
+    elif r['label'] == 'pairs':
         p, s1, q, s2 = r['pair']
         run_pair(part, r['forest'], tuple(p), tuple(s1), tuple(q), tuple(s2))
     else:
